@@ -722,7 +722,7 @@ def lfn_histories(seed, quick):
     for _ in range(250 if quick else 3000):
         seqs.append([rng.choice(LFN_SYMS) for _ in range(rng.choice([3, 4, 5, 6]))])
     # well-formed multi-fragment runs
-    for n in (2, 3, 5, 19):
+    for n in (2, 3, 5, 16, 19, 20):
         seqs.append(['Ls%d' % n] + ['Lc%d' % k for k in range(n - 1, 0, -1)] + ['S'])
     # the same with the first fragment deleted (the rest still live), and with a deleted fragment in the middle
     for n in (2, 3, 5, 6):
